@@ -44,7 +44,7 @@ ASSUMPTIONS = ['object names unique within a set, attribute labels unique within
                'the physical layer (C01) is trusted: a file whose sequential read does not return the encoded payloads is reported under physical-layer and not analysed further']
 SHARDS = {'quick': 4, 'thorough': 16}
 VALUE_CODE_CLASSES = ['value-code-%d' % c for c in L.CODES]
-REQUIRED_CLASSES = dict({'absent-attribute': 1, 'trailing-omission': 1, 'override-count-or-code': 1, 'invariant-attribute': 1,
+REQUIRED_CLASSES = dict({'cell-count>=128': 1, 'absent-attribute': 1, 'trailing-omission': 1, 'override-count-or-code': 1, 'invariant-attribute': 1,
                          'table-spans>=2-segments': 1, '>=2-logical-files': 1, 'encrypted-eflr': 1,
                          'index-route-compared': 1}, **{c: 1 for c in VALUE_CODE_CLASSES})
 
@@ -250,6 +250,7 @@ def classify(cc, case, model):
         cc.cls('template-attribute-without-label', any('L' not in a['present'] for a in t['template']))
         cc.cls('template-value-with-default-code-or-count', any('V' in a['present'] and ('R' not in a['present'] or 'C' not in a['present']) for a in t['template']))
         cc.cls('cell-count-0', any(c is not None and c['count'] == 0 for o in t['objects'] for c in o['cells']))
+        cc.cls('cell-count>=128', any(c is not None and c['count'] >= 128 for o in t['objects'] for c in o['cells']))
         cc.cls('object-attribute-with-label', any(c is not None and 'L' in c['present'] for o in t['objects'] for c in o['cells']))
         cc.cls('payload>16KiB', len(model['payloads'][t['record']]) > 16384)
     for s in shapes:
